@@ -153,7 +153,7 @@ PROPS.update({
 PROPS["C18"] = {
     "modules": ["TurnModel.Props.C18"], "gen": True,
     "harnesses": ["H9", "H4", "H11", "H5"], "view": ["slowcb", "trace"], "outs": None,
-    "alarms": ["liveness-lost", "allocation-left", "txn-completion-race", "harness-died", "data-race", "concurrent-writers-mixed", "h11-setup", "manager-blocked-by-dial", "h9-setup", "server-wedged", "allocation-vanished-after-success", "concurrent-first-write-closes-allocation", "accept-blocked-after-close", "inbound-blocks", "h5-setup"],
+    "alarms": ["liveness-lost", "allocation-left", "txn-completion-race", "harness-died", "data-race", "concurrent-writers-mixed", "h11-setup", "manager-blocked-by-dial", "h9-setup", "server-wedged", "allocation-vanished-after-success", "concurrent-first-write-closes-allocation", "accept-blocked-after-close", "accept-deadline-not-sticky", "inbound-blocks", "h5-setup"],
     "rule": "regenerated obligations: xlate re-emits the lock skeleton of every function/closure touching a sync mutex (63 units, 26 lock ids), the call/guard "
             "skeleton of the request handlers and the AddPermission ordering facts from /repo's working tree on every run; the kernel re-checks balanced/guarded "
             "by decide; the translator also derives, over the static call graph, which mutexes each function may take (callee summaries) and the kernel re-checks that the resulting lock-order graph (mutex held -> mutex taken, over every path, through calls) is acyclic (lock_order_acyclic). Failing-input search / supporting run: H9 makes each lifecycle callback slow (1 s / 4 s virtual) and tears the allocation down during it by "
@@ -214,7 +214,7 @@ PROPS["C12"] = {
 PROPS["C13"] = {
     "modules": ["TurnModel.Props.C13", "TurnModel.Props.C13Nums", "TurnModel.Props.C13Locks"], "gen": True,
     "harnesses": ["H5", "H11", "H10"], "view": ["cwrite", "cin", "cread", "cadv", "cclose", "cnet"], "outs": None,
-    "alarms": ["inbound-blocks", "h5-setup", "harness-died", "read-deadline-not-sticky", "data-race", "concurrent-writers-mixed", "h11-setup", "channel-number-reused", "concurrent-first-write-closes-allocation"],
+    "alarms": ["inbound-blocks", "h5-setup", "harness-died", "read-deadline-not-sticky", "data-race", "concurrent-writers-mixed", "h11-setup", "channel-number-reused", "concurrent-first-write-closes-allocation", "accept-deadline-not-sticky", "accept-blocked-after-close", "stream-other-record", "permission-address-aliased"],
     "rule": "H5 drives the real turn.Client + UDPConn (Allocate, WriteTo, ReadFrom, SetReadDeadline, Close, HandleInbound, the 30 s bindings timer) against a scripted TURN server on an "
             "in-memory socket under virtual time: every write gets a reaction script for CreatePermission and ChannelBind drawn from {ok, 400, 403, 438, 438x2, 438x3, silence, 438+403, 508}; "
             "inbound Data indications, ChannelData (known/unknown channels, payloads starting with the STUN cookie), requests, undecodable STUN, foreign responses, garbage from the server and "
